@@ -1112,3 +1112,223 @@ def notify_last_rule(ctx, rid, min_instances=4):
             r.fail(f.qualname, "state-after-notify", f.file, st.lineno, f"{f.cls.name}.{f.name}", f"`{norm_text(st)[:70]}` runs after the observers were notified and {why}: an observer reading the object in its callback sees the state of before the change")
         else:
             r.ok(f"{f.qualname}: the notification is the last state-relevant step")
+
+
+# ---------------------------------------------------------------------------
+# thickness homogeneity of the element systems (abstract interpretation: the value domain is the degree in the thickness)
+# ---------------------------------------------------------------------------
+
+
+class Deg:
+    """an array whose every term carries the thickness `d` times (`mixed`: its terms disagree)"""
+
+    _xeval_open = True
+    __array_priority__ = 1000
+
+    def __init__(self, d):
+        self.d = d
+
+    @staticmethod
+    def of(x):
+        return x.d if isinstance(x, Deg) else 0
+
+    def _mul(self, o):
+        a, b = self.d, Deg.of(o)
+        return Deg("mixed" if "mixed" in (a, b) else a + b)
+
+    def _add(self, o):
+        if isinstance(o, (int, float)) and o == 0:
+            return Deg(self.d)
+        a, b = self.d, Deg.of(o)
+        return Deg(a if a == b else "mixed")
+
+    __mul__ = __rmul__ = __matmul__ = __rmatmul__ = _mul
+    __add__ = __radd__ = __sub__ = __rsub__ = _add
+
+    def __truediv__(self, o):
+        a, b = self.d, Deg.of(o)
+        return Deg("mixed" if "mixed" in (a, b) else a - b)
+
+    def __rtruediv__(self, o):
+        return Deg("mixed" if self.d == "mixed" else -self.d)
+
+    def __neg__(self):
+        return Deg(self.d)
+
+    def __getitem__(self, k):
+        return Deg(self.d)
+
+    def __getattr__(self, name):
+        if name in ("T",):
+            return Deg(self.d)
+        if name in ("copy", "integrate", "sum", "mean", "reshape", "astype", "transpose", "ravel"):
+            return lambda *a, **k: Deg(self.d)
+        if name in ("shape",):
+            return (1, 1)
+        raise AttributeError(name)
+
+    def __repr__(self):
+        return f"Deg({self.d})"
+
+
+class Loose:
+    """any object of the simulation's surroundings: attributes and calls give Loose values, `thickness` has degree one,
+    dimensions are 2, truth values follow the schedule of the run"""
+
+    _xeval_open = True
+    _xeval_truth = True
+    truth = True
+    arity = {"Integrate": 4, "Calc_C": 2, "Calc_psi_e_pg": 2}
+
+    def __init__(self, name=""):
+        object.__setattr__(self, "_name", name)
+
+    def __getattr__(self, name):
+        if name.startswith("__") and name.endswith("__"):
+            raise AttributeError(name)
+        if "thickness" in name.lower():
+            return Deg(1)
+        if name in ("dim", "inDim"):
+            return 2
+        return Loose(name)
+
+    def __call__(self, *a, **k):
+        n = Loose.arity.get(object.__getattribute__(self, "_name"))
+        return tuple(Loose() for _ in range(n)) if n else Loose()
+
+    def __bool__(self):
+        return Loose.truth
+
+    def _same(self, *a):
+        return Loose()
+
+    # arithmetic: a Loose value is an array that does not carry the thickness (degree 0)
+    def _mul(self, o):
+        return Deg(0)._mul(o) if isinstance(o, Deg) else Loose()
+
+    def _add(self, o):
+        return Deg(0)._add(o) if isinstance(o, Deg) else Loose()
+
+    def __truediv__(self, o):
+        return Deg(0).__truediv__(o) if isinstance(o, Deg) else Loose()
+
+    def __rtruediv__(self, o):
+        return o.__truediv__(Deg(0)) if isinstance(o, Deg) else Loose()
+
+    __mul__ = __rmul__ = __matmul__ = __rmatmul__ = _mul
+    __add__ = __radd__ = __sub__ = __rsub__ = _add
+    __getitem__ = __pow__ = __lt__ = __le__ = __gt__ = __ge__ = _same
+
+    def __neg__(self):
+        return Loose()
+
+    def __invert__(self):
+        return Loose()
+
+    def __setitem__(self, k, v):
+        pass
+
+    def __iter__(self):
+        raise TypeError("a Loose value is not a sequence")
+
+    def __contains__(self, x):
+        return Loose.truth
+
+    def __eq__(self, o):
+        return Loose.truth
+
+    def __hash__(self):
+        return id(self)
+
+    def __repr__(self):
+        return "<loose>"
+
+
+def element_system_thickness_rule(ctx, rid, class_names, min_instances=5):
+    """In a 2-D analysis every array of the element system a simulation hands to the assembly (K_e, C_e, M_e, F_e per
+    group) is homogeneous of degree one in the thickness, whatever the flags of the model (plane stress or plane
+    strain, optional terms present or not).  Construct_local_matrix_system of each class is interpreted over the
+    degree domain: operator calls give degree 0, `thickness` degree 1, products add, sums must agree; every truth
+    value the surroundings supply is run both ways."""
+    from types import SimpleNamespace
+
+    from .xeval import Interp, XObj, Sink, XRaise, Uninterpretable, FuncInfo, _Bound, Opaque, _NpAttr
+
+    repo = ctx.repo
+    r = ctx.rule(rid, "2-D element systems: every array returned by Construct_local_matrix_system carries the thickness exactly once, for both truth values of every model flag", min_instances=min_instances)
+    for cname in class_names:
+        ci = repo.cls(cname)
+        f = repo.lookup_method(ci, "Construct_local_matrix_system")
+        pts = ["pt"]
+        pt_cls = ci.nested.get("ProblemTypes")
+        if pt_cls is not None:
+            pts = [t.id for st in pt_cls.node.body if isinstance(st, ast.Assign) for t in st.targets if isinstance(t, ast.Name)] or pts
+        for pt in pts:
+            for truth in (True, False):
+                r.instance(fn=f.qualname)
+                Loose.truth = truth
+                G = Loose("groupElem")
+                mesh = SimpleNamespace(dim=2, inDim=2, Nn=4, groupElem=G, Get_list_groupElem=lambda *a, **k: [G])
+                from .xarray import XArray as _XA
+
+                fields = {"displacement": _XA((8,), [0] * 8), "damage": _XA((4,), [0] * 4), "thermal": _XA((4,), [0] * 4)}
+                obj = XObj(ci, dict(fields, dim=2, mesh=mesh, _verbosity=False, ProblemTypes=SimpleNamespace(**{p: p for p in pts}), problemType=pt))
+
+                def attr_hook(o, name, obj=obj, ci=ci):
+                    if o is not obj:
+                        return NotImplemented
+                    if name in obj.attrs:
+                        return obj.attrs[name]
+                    for c in ci.mro:
+                        m = c.mangle(name)
+                        if m in obj.attrs:
+                            return obj.attrs[m]
+                    g = repo.lookup_method(ci, name)
+                    if g is not None and g.cls is not None and g.cls.module.name.startswith("EasyFEA.Simulations") and g.cls.name != "_Simu":
+                        return NotImplemented  # the class's own helpers are interpreted
+                    if "thickness" in name.lower():
+                        return Deg(1)
+                    return Loose(name)
+
+                def call_hook(fn, args, kwargs):
+                    fi = fn if isinstance(fn, FuncInfo) else getattr(fn, "finfo", None)
+                    if isinstance(fi, FuncInfo):
+                        if fi.module.name.startswith("EasyFEA.FEM.Operators"):
+                            return Deg(0)
+                        if fi.name == "Tic" or fi.module.name.startswith("EasyFEA.Utilities"):
+                            return Sink()
+                    if isinstance(fn, Opaque):
+                        return Loose()
+                    if isinstance(fn, _NpAttr) and any(isinstance(a, (Loose, Deg)) for a in list(args) + list(kwargs.values())):
+                        # numpy on values of the surroundings: shape bookkeeping, not thickness
+                        if fn.path == "where" and len(args) == 1:
+                            return (Loose(), Loose())
+                        degs = [a for a in args if isinstance(a, Deg)]
+                        return Deg(degs[0].d) if degs else Loose()
+                    return NotImplemented
+
+                I = Interp(repo, extra_builtins={"Tic": lambda *a, **k: Sink(), "int": lambda x=0: 0 if isinstance(x, Loose) else int(x)})
+                I.attr_hook, I.call_hook = attr_hook, call_hook
+                key = f"{ci.name}:{pt}:flags={truth}"
+                try:
+                    out = I.call_function(f, [pt], self_obj=obj)
+                except XRaise:
+                    r.ok(f"{key}: rejected")  # an assertion of the method on the supplied flags: no system is produced
+                    continue
+                finally:
+                    Loose.truth = True
+                bad = None
+                if not isinstance(out, dict) or not out:
+                    bad = "no element system is returned"
+                else:
+                    for grp, tup in out.items():
+                        for k, v in enumerate(tup):
+                            if v is None:
+                                continue
+                            d = Deg.of(v)
+                            if d != 1:
+                                bad = f"{'KCMF'[k]}_e carries the thickness {'inconsistently across its terms' if d == 'mixed' else str(d) + ' time(s)'}"
+                if bad:
+                    r.fail(f.qualname, f"{pt}:flags={truth}", f.file, f.lineno, f"{ci.name}.Construct_local_matrix_system", f"2-D, problem {pt}, model flags {'set' if truth else 'cleared'}: {bad}: the element system is not the one of a plate of that thickness")
+                else:
+                    r.ok(f"{key}: degree 1")
